@@ -2,7 +2,7 @@
    Only ExtrOcamlBasic is used: N, positive and nat stay the extracted datatypes. *)
 From Coq Require Import Extraction ExtrOcamlBasic.
 From Snaps Require Import Base.Bytes Base.Lines Base.Dec Base.Assoc.
-From Snaps Require Import Model.Frame Model.PathModel Model.Mode Model.Api Model.Json Model.Matchers Model.Difflib Model.Report Model.ScriptGen Model.ReportReader Model.Natural Model.Clean Model.Summary Model.Caller Model.Sched.
+From Snaps Require Import Model.Frame Model.PathModel Model.Mode Model.Api Model.Json Model.Matchers Model.Difflib Model.Report Model.ScriptGen Model.ReportReader Model.Natural Model.Clean Model.Summary Model.Caller Model.Sched Model.RunFilter Model.GoRun.
 
 Extraction Language OCaml.
 Extraction "model.ml" init_state step run get_prev add_entry update_entry escape unescape
@@ -16,4 +16,5 @@ Extraction "model.ml" init_state step run get_prev add_entry update_entry escape
   summary clean_stdout read_summary sumdata_of_result sumread_of strip_ansi
   apply_matchers_snapshot parse
   valid_script groups_of_script report_of_script unified_of_script read_report report_read_of
-  groups_of_script_n unified_of_script_n report_of_script_n.
+  groups_of_script_n unified_of_script_n report_of_script_n
+  re_match test_skipped_run go_selects.
